@@ -264,7 +264,53 @@ def alt_params(case, r):
   return kw
 
 
-def run_search(case, which, mods=None, interleave=None, prior_calls=None, prior_long_window=False):
+_OPAQUE = ('TBRMMDesignParameters', 'TBRMMData', 'TBRMatchedMarkets', 'GeoEligibility', 'DataFrame', 'Series', 'Index')
+
+
+def scribble(obj, depth=0, seen=None):
+  """A caller editing, in place, what a query or search RETURNED to it (arrays rescaled for a plot, sets and lists
+  emptied or re-used as scratch space). Objects the caller passed in (parameters, data, eligibility) are left alone.
+  Returns the number of containers edited."""
+  seen = set() if seen is None else seen
+  if id(obj) in seen or depth > 7 or obj is None:
+    return 0
+  seen.add(id(obj))
+  name = type(obj).__name__
+  if name in _OPAQUE or isinstance(obj, (str, bytes, int, float, bool, complex, type)) or callable(obj):
+    return 0
+  if isinstance(obj, np.ndarray):
+    if obj.size and obj.flags.writeable and obj.dtype.kind in 'fiu':
+      if obj.dtype.kind == 'f':
+        obj *= 0.25
+        obj += 1.0
+      else:
+        obj[...] = 0
+      return 1
+    return 0
+  n = 0
+  if isinstance(obj, (set,)):
+    obj.clear()
+    obj.add('__edited_by_caller__')
+    return 1
+  if isinstance(obj, dict):
+    for v in list(obj.values()):
+      n += scribble(v, depth + 1, seen)
+    return n
+  if isinstance(obj, (list, tuple)):
+    for v in list(obj):
+      n += scribble(v, depth + 1, seen)
+    if isinstance(obj, list):
+      del obj[:]
+      n += 1
+    return n
+  d = getattr(obj, '__dict__', None)
+  if isinstance(d, dict):
+    for v in list(d.values()):
+      n += scribble(v, depth + 1, seen)
+  return n
+
+
+def run_search(case, which, mods=None, interleave=None, prior_calls=None, prior_long_window=False, scribble_prior=None):
   """Runs one search on fresh objects at the client boundary.
 
   interleave: optional random.Random. When given, the data object is *shared* with a second matched-markets
@@ -277,8 +323,18 @@ def run_search(case, which, mods=None, interleave=None, prior_calls=None, prior_
   """
   probes.reset()
   frame_before = frame_fingerprint(case['frame'])
+  scribbled = 0
+  if scribble_prior is not None:
+    # earlier in the same process: the same searches on objects of their own, whose RESULTS the caller then edits
+    # in place; nothing of that may leak into the judged search
+    for pw in scribble_prior:
+      b0 = util.call(build, case, mods)
+      if b0.ok:
+        res0 = util.call(getattr(b0.value[2], pw + '_search'))
+        if res0.ok:
+          scribbled += scribble(res0.value)
   built = util.call(build, case, mods)
-  rec = {'which': which, 'build': built, 'designs': None, 'admitted': None}
+  rec = {'which': which, 'build': built, 'designs': None, 'admitted': None, 'scribbled': scribbled}
   if not built.ok:
     rec['outcome'] = built
     rec['stage'] = 'build'
